@@ -12,7 +12,7 @@
 (*            a panic is never accepted.                                   *)
 (***************************************************************************)
 EXTENDS Belt, Json, IOUtils
-VARIABLES l, inst
+VARIABLES tpos, inst
 Rec == ndJsonDeserialize(IOEnv.TRACE)
 OSched(t, k, x) == BeltSched(t, k, x)
 OEnc(ks, b) == BeltEnc(ks, b)
@@ -22,7 +22,7 @@ INSTANCE ConfBase
 
 WBlock ==
     /\ IsEvent("wblock")
-    /\ LET e == Rec[l] IN
+    /\ LET e == Rec[tpos] IN
        /\ e.dir \in {"enc", "dec"}
        /\ Len(e.key) = 32
        /\ e.len = Len(e.in)
@@ -36,7 +36,7 @@ WBlock ==
 
 Raw ==
     /\ IsEvent("raw")
-    /\ LET e == Rec[l] IN
+    /\ LET e == Rec[tpos] IN
        /\ e.outcome = "ok"
        /\ e.out = BeltEnc(BeltSched("BeltBlock", e.key, <<>>), e.x)
     /\ UNCHANGED inst
